@@ -45,6 +45,7 @@ def _impl_best_match(alts, v):
 # independent oracle: the documented precedence (docs/track.rst) in plain Python
 # ---------------------------------------------------------------------------------------------
 CANON = re.compile(r"^(0|[1-9]\d*)(?:\.(0|[1-9]\d*)(?:\.(0|[1-9]\d*)(?:-(.+))?)?)?$")
+QUIRK = re.compile(r"^(0|[1-9]\d*)(?:\.(0|[1-9]\d*))?-.+$")
 STRICT = re.compile(r"^(\d+)\.(\d+)\.(\d+)(?:-(.+))?$")
 
 
@@ -59,12 +60,17 @@ def oracle_best_match(alts, v):
     M, mi, pa = int(m.group(1)), int(m.group(2)), int(m.group(3))
     sfx = m.group(4)
     versioned = []
+    quirk_majors = []
     for a in alts:
         c = CANON.match(a)
         if c:
             versioned.append((int(c.group(1)), None if c.group(2) is None else int(c.group(2)), None if c.group(3) is None else int(c.group(3)), c.group(4)))
+        elif QUIRK.match(a):
+            # MAJOR-text / MAJOR.MINOR-text: a suffix without a patch is not a scheme name -> an unrelated branch, never a candidate
+            # (the scheme is MAJOR[.MINOR[.PATCH[-SUFFIX]]]); it only makes the master rule ambiguous, see below
+            quirk_majors.append(int(QUIRK.match(a).group(1)))
         elif re.match(r"^\d", a) and re.match(r"^\d+(\.\d+)?(\.\d+)?(-.+)?$", a):
-            return None, False  # looks like a version but is not a canonical scheme name
+            return None, False  # looks like a version but is not a canonical scheme name (non-canonical numerals such as 7.01)
     if sfx and f"{M}.{mi}.{pa}-{sfx}" in alts:
         return f"{M}.{mi}.{pa}-{sfx}", True
     if f"{M}.{mi}.{pa}" in alts:
@@ -76,6 +82,10 @@ def oracle_best_match(alts, v):
         return f"{M}.{max(prior)}", True
     if f"{M}" in alts:
         return f"{M}", True
+    if any(q >= M for q in quirk_majors) and all(M > b[0] for b in versioned):
+        # whether an unrelated MAJOR[.MINOR]-text branch of this or a later major counts as a "versioned branch" for the master rule is
+        # not settled by the property text
+        return None, False
     if all(M > b[0] for b in versioned):
         return "master", True
     return None, True
@@ -130,7 +140,10 @@ def gen_quirk(ctx):
     rng = ctx.rng
     quirks = ["7-x", "7.1-x", "8-backport", "7.17-fix", "6.8-legacy"]
     for _ in range(ctx.budget):
-        alts = [gen_branch(rng, weird=0.0) for _ in range(rng.randrange(0, 4))] + [rng.choice(quirks)]
+        q = rng.choice(quirks) if rng.random() < 0.3 else (f"{rng.choice(MAJORS)}.{rng.choice([0, 1, 2, 3, 10, 11, 17])}-{rng.choice(['wip', 'x', 'next', 'fix'])}" if rng.random() < 0.8 else f"{rng.choice(MAJORS)}-{rng.choice(['x', 'next', 'backport'])}")
+        alts = [gen_branch(rng, weird=0.0) for _ in range(rng.randrange(0, 4))] + [q]
+        if rng.random() < 0.3:
+            alts.append("master")
         rng.shuffle(alts)
         yield {"alts": alts, "v": gen_version(rng)}
 
@@ -546,7 +559,7 @@ def run_repo_history(ctx, case):
 STREAMS = [
     Stream("components", gen_components, run_components, quick=4000, thorough=200000),
     Stream("best_match", gen_best_match, run_best_match, quick=20000, thorough=1000000),
-    Stream("best_match_quirk_names", gen_quirk, run_best_match, quick=500, thorough=20000, shards=2),
+    Stream("best_match_quirk_names", gen_quirk, run_best_match, quick=4000, thorough=100000, shards=4),
     Stream("small_universe", gen_small_universe, run_best_match, quick=6000, thorough=1, shards=16, exhaustive_thorough=True),
     Stream("repo_update_git", gen_repo, run_repo, quick=240, thorough=20000, shards=16),
     Stream("repo_history_git", gen_repo_history, run_repo_history, quick=96, thorough=10000, shards=16),
